@@ -433,8 +433,10 @@ func runC02(c *core.Ctx, o Options) {
 					if cl, ok := in.(*ssa.Call); ok && an.CalleeIs(&cl.Call, "fix/encoding", "state.unmarshal") {
 						call = cl
 					}
-					if phi, ok := in.(*ssa.Phi); ok && rangeIndexPhi(phi) != nil && phi.Comment == "rangeindex" {
-						head = phi.Block()
+					if bo, ok := in.(*ssa.BinOp); ok {
+						if phi := rangeIndexPhi(bo); phi != nil && phi.Comment == "rangeindex" {
+							head = phi.Block()
+						}
 					}
 				}
 			}
@@ -480,6 +482,7 @@ func runC02(c *core.Ctx, o Options) {
 			}
 		}
 	}
+	c.RuleMin = map[string]int{"R1": 28, "R2": 1, "R3": 4, "R4": 1, "R5": 2, "R6": 1, "R7": 3}
 	c.MinObl = 30
 }
 
